@@ -227,6 +227,9 @@ func (i *Instance) SetInterceptor(f Interceptor) {
 	i.icept.Store(&f)
 }
 
+// Dead reports whether the instance has been killed.
+func (i *Instance) Dead() bool { return i.dead.Load() }
+
 // Kill marks the instance dead: every later step of it fails without effect.
 func (i *Instance) Kill() { i.dead.Store(true) }
 
@@ -427,4 +430,41 @@ func SortedStrings(m map[string]struct{}) []string {
 	}
 	sort.Strings(out)
 	return out
+}
+
+// WALEvent is one entry of the recovery log file.
+type WALEvent struct {
+	Key  string
+	Type string
+	Item string
+}
+
+// WALEvents reads the WAL file directly. No instance may hold the file open.
+func (b *Backend) WALEvents() ([]WALEvent, error) {
+	if _, err := os.Stat(b.WALPath); err != nil {
+		return nil, nil
+	}
+	lith := walkv.NewLithium()
+	if err := lith.Open(b.WALPath, 0o600, 2*time.Second); err != nil {
+		return nil, err
+	}
+	defer lith.Close()
+	ch, _ := lith.Scan([]byte("/events/"))
+	var out []WALEvent
+	for e := range ch {
+		if e.Error() != nil {
+			return out, e.Error()
+		}
+		k, v := e.Pair()
+		var ev struct {
+			Type string `json:"type"`
+			Item []byte `json:"item"`
+		}
+		if err := jsonUnmarshal(v, &ev); err != nil {
+			out = append(out, WALEvent{Key: string(k), Type: "?", Item: string(v)})
+			continue
+		}
+		out = append(out, WALEvent{Key: string(k), Type: ev.Type, Item: string(ev.Item)})
+	}
+	return out, nil
 }
